@@ -177,8 +177,13 @@ def _der(n, obj, how, leaves):
 def _history(n, spec, out):
     leaves = {k: (int(lo), int(hi)) for k, (lo, hi) in plspec.leaves(spec["model"]).items()}
     how = spec["derive"]
+    # the two reference observations are each taken from the process state at import time (M12), so that what they leave behind in
+    # process-wide tables cannot make reference and history agree by accident
+    C.reset_process_state()
     cold = _obs(n, _der(n, plspec.build(n, spec["model"], {}), how, leaves), leaves)
+    C.reset_process_state()
     fresh = _obs(n, plspec.build(n, spec["model"], {}), leaves)
+    C.reset_process_state()
     m = plspec.build(n, spec["model"], {})
     _obs(n, m, leaves)
     m.evaluate_propositions({l: lo for l, (lo, hi) in leaves.items()})
